@@ -4,7 +4,7 @@
     [X fs k] is the k-th data sample of the (multi-file) stream, sample t channel c at index t*nchans + c. *)
 From Coq Require Import ZArith List Bool.
 Require Import SPP.Base.Rt SPP.Gen.Kernels SPP.Gen.Plan SPP.Gen.BaseSites SPP.Model.Stream SPP.Model.Plan SPP.Model.C06_pipe
-               SPP.Model.Bits SPP.Model.PlanPacked SPP.Proofs.C02_stream SPP.Proofs.C01_plan SPP.Proofs.C01_packed SPP.Proofs.C06_reduce SPP.Model.C10_moments SPP.Proofs.C07_transforms SPP.Proofs.C06_stats.
+               SPP.Model.Bits SPP.Model.PlanPacked SPP.Proofs.C02_stream SPP.Proofs.C01_plan SPP.Proofs.C01_packed SPP.Proofs.C06_reduce SPP.Model.C10_moments SPP.Proofs.C07_transforms SPP.Proofs.C06_stats SPP.Model.C06_pipe_more SPP.Proofs.C06_more.
 Import ListNotations.
 Open Scope Z_scope.
 
@@ -123,4 +123,162 @@ Example C06_example :
   option_map (to_list 5) (collapse_pipe fs 2 2 1 5) = Some [7; 11; 15; 19; 23] /\
   option_map (to_list 3) (dedisperse_pipe fs 2 2 1 5 2 (of_list [0; 2])) = Some [3 + 8; 5 + 10; 7 + 12] /\
   option_map (fun p => (to_list 2 (fst p), snd p)) (bandpass_pipe fs 2 3 1 5) = Some ([3 + 5 + 7 + 9 + 11; 4 + 6 + 8 + 10 + 12], 5).
+Proof. vm_compute. repeat split; reflexivity. Qed.
+
+(** ---- the remaining reductions at the packed depths (1, 2, 4 bits; unpack after read), Proofs/C06_more.v ---- *)
+Theorem C06_bandpass_packed : forall fs nch nbits big N gulp start nsamps junk,
+  In nbits [1; 2; 4] -> (nch * nbits) mod 8 = 0 -> 1 <= nch ->
+  1 <= nfiles fs -> total fs = N * samp_bytes nch nbits -> Forall is_byte (flat fs) ->
+  0 <= start -> 1 <= nsamps -> start + nsamps <= N -> 1 <= gulp ->
+  exists out n, bandpass_pipe_packed fs nch nbits big gulp start nsamps junk = Some (out, n) /\ n = nsamps /\
+    forall c, 0 <= c < nch -> out c = sum_n (Z.to_nat nsamps) (fun t => packed_sample fs nbits big ((start + t) * nch + c)).
+Proof. exact bandpass_spec_packed. Qed.
+Print Assumptions C06_bandpass_packed.
+
+(** independent of the reused unpack buffer [junk] and of the uninitialised output [out0] *)
+Theorem C06_read_chan_packed : forall fs nch nbits big N gulp start nsamps junk,
+  In nbits [1; 2; 4] -> (nch * nbits) mod 8 = 0 -> 1 <= nch ->
+  1 <= nfiles fs -> total fs = N * samp_bytes nch nbits -> Forall is_byte (flat fs) ->
+  0 <= start -> 1 <= nsamps -> start + nsamps <= N -> 1 <= gulp ->
+  forall ichan out0, 0 <= ichan < nch ->
+  exists out, read_chan_pipe_packed fs nch nbits big gulp start nsamps ichan junk out0 = Some out /\
+    forall t, 0 <= t < nsamps -> out t = packed_sample fs nbits big ((start + t) * nch + ichan).
+Proof. exact read_chan_spec_packed. Qed.
+Print Assumptions C06_read_chan_packed.
+
+(** the column is that of the byte-wide set holding the unpacked samples (X_unpacked: its sample k is packed_sample fs nbits big k) *)
+Theorem C06_stats_packed : forall fs nch nbits big N gulp start nsamps junk,
+  In nbits [1; 2; 4] -> (nch * nbits) mod 8 = 0 -> 1 <= nch ->
+  1 <= nfiles fs -> total fs = N * samp_bytes nch nbits -> Forall is_byte (flat fs) ->
+  0 <= start -> 1 <= nsamps -> start + nsamps <= N -> 1 <= gulp ->
+  forall c full, 0 <= c < nch -> nsamps < 2 ^ 31 ->
+  exists s, stats_pipe_packed fs nch nbits big gulp start nsamps full c junk = Some s /\
+    inv full (column (unpacked_set fs nbits big) nch start nsamps c) s /\ inv_minmax (column (unpacked_set fs nbits big) nch start nsamps c) s.
+Proof. exact stats_spec_packed. Qed.
+Print Assumptions C06_stats_packed.
+
+(** ---- item-wide samples: w bytes per sample, [dec] = the (integer) value of one item; 32-bit float data is w = 4 with dec the
+    float32 decoding (integer-valued by the property's stipulation, so that the float32 sums are these exact sums).  Holds for
+    EVERY width w >= 1 and EVERY decoding function. ---- *)
+Theorem C06_items_transfer : forall fs nch w dec N start nsamps,
+  1 <= w -> 1 <= nch -> 1 <= nfiles fs -> total fs = N * (nch * w) -> 0 <= start -> 1 <= nsamps -> start + nsamps <= N ->
+  forall gulp0 skipback0, 1 <= gulp0 -> Z.abs skipback0 < Z.min nsamps gulp0 ->
+  run_plan_items fs nch w dec gulp0 start nsamps skipback0 = run_plan (items_set fs w dec) nch gulp0 start nsamps skipback0.
+Proof. exact run_plan_items_as_samples. Qed.
+Print Assumptions C06_items_transfer.
+
+Theorem C06_collapse_items : forall fs nch w dec N gulp start nsamps,
+  1 <= w -> 1 <= nch -> 1 <= nfiles fs -> total fs = N * (nch * w) -> 0 <= start -> 1 <= nsamps -> start + nsamps <= N -> 1 <= gulp ->
+  exists out, collapse_pipe_items fs nch w dec gulp start nsamps = Some out /\
+    forall t, 0 <= t < nsamps -> out t = sum_n (Z.to_nat nch) (fun c => item_sample fs w dec ((start + t) * nch + c)).
+Proof. exact collapse_spec_items. Qed.
+Print Assumptions C06_collapse_items.
+
+Theorem C06_bandpass_items : forall fs nch w dec N gulp start nsamps,
+  1 <= w -> 1 <= nch -> 1 <= nfiles fs -> total fs = N * (nch * w) -> 0 <= start -> 1 <= nsamps -> start + nsamps <= N -> 1 <= gulp ->
+  exists out n, bandpass_pipe_items fs nch w dec gulp start nsamps = Some (out, n) /\ n = nsamps /\
+    forall c, 0 <= c < nch -> out c = sum_n (Z.to_nat nsamps) (fun t => item_sample fs w dec ((start + t) * nch + c)).
+Proof. exact bandpass_spec_items. Qed.
+Print Assumptions C06_bandpass_items.
+
+Theorem C06_read_chan_items : forall fs nch w dec N gulp start nsamps,
+  1 <= w -> 1 <= nch -> 1 <= nfiles fs -> total fs = N * (nch * w) -> 0 <= start -> 1 <= nsamps -> start + nsamps <= N -> 1 <= gulp ->
+  forall ichan out0, 0 <= ichan < nch ->
+  exists out, read_chan_pipe_items fs nch w dec gulp start nsamps ichan out0 = Some out /\
+    forall t, 0 <= t < nsamps -> out t = item_sample fs w dec ((start + t) * nch + ichan).
+Proof. exact read_chan_spec_items. Qed.
+Print Assumptions C06_read_chan_items.
+
+Theorem C06_dedisperse_items : forall fs nch w dec N gulp start nsamps,
+  1 <= w -> 1 <= nch -> 1 <= nfiles fs -> total fs = N * (nch * w) -> 0 <= start -> 1 <= nsamps -> start + nsamps <= N -> 1 <= gulp ->
+  forall md delays, 0 <= md < nsamps -> (forall c, 0 <= c < nch -> 0 <= delays c <= md) ->
+  exists out, dedisperse_pipe_items fs nch w dec gulp start nsamps md delays = Some out /\
+    forall t, 0 <= t < nsamps - md -> out t = sum_n (Z.to_nat nch) (fun c => item_sample fs w dec ((start + t + delays c) * nch + c)).
+Proof. exact dedisperse_spec_items. Qed.
+Print Assumptions C06_dedisperse_items.
+
+Theorem C06_stats_items : forall fs nch w dec N gulp start nsamps,
+  1 <= w -> 1 <= nch -> 1 <= nfiles fs -> total fs = N * (nch * w) -> 0 <= start -> 1 <= nsamps -> start + nsamps <= N -> 1 <= gulp ->
+  forall c full, 0 <= c < nch -> nsamps < 2 ^ 31 ->
+  exists s, stats_pipe_items fs nch w dec gulp start nsamps full c = Some s /\
+    inv full (column (items_set fs w dec) nch start nsamps c) s /\ inv_minmax (column (items_set fs w dec) nch start nsamps c) s.
+Proof. exact stats_spec_items. Qed.
+Print Assumptions C06_stats_items.
+
+(** ---- changing only the gulp never changes the result: the reductions that had no corollary yet ---- *)
+Theorem C06_gulp_irrelevant_bandpass : forall fs nch N g1 g2 start nsamps,
+  1 <= nfiles fs -> 1 <= nch -> total fs = N * nch -> 0 <= start -> 1 <= nsamps -> start + nsamps <= N -> 1 <= g1 -> 1 <= g2 ->
+  exists o1 n1 o2 n2, bandpass_pipe fs nch g1 start nsamps = Some (o1, n1) /\ bandpass_pipe fs nch g2 start nsamps = Some (o2, n2) /\
+    n1 = n2 /\ forall c, 0 <= c < nch -> o1 c = o2 c.
+Proof. exact gulp_irrelevant_bandpass. Qed.
+Print Assumptions C06_gulp_irrelevant_bandpass.
+
+Theorem C06_gulp_irrelevant_read_chan : forall fs nch N g1 g2 start nsamps,
+  1 <= nfiles fs -> 1 <= nch -> total fs = N * nch -> 0 <= start -> 1 <= nsamps -> start + nsamps <= N -> 1 <= g1 -> 1 <= g2 ->
+  forall ichan junk1 junk2, 0 <= ichan < nch ->
+  exists o1 o2, read_chan_pipe fs nch g1 start nsamps ichan junk1 = Some o1 /\ read_chan_pipe fs nch g2 start nsamps ichan junk2 = Some o2 /\
+    forall t, 0 <= t < nsamps -> o1 t = o2 t.
+Proof. exact gulp_irrelevant_read_chan. Qed.
+Print Assumptions C06_gulp_irrelevant_read_chan.
+
+(** the two accumulator states agree field by field as rationals (count, mean, M2, min, max; M3 and M4 in full mode) *)
+Theorem C06_gulp_irrelevant_stats : forall fs nch N g1 g2 start nsamps c full,
+  1 <= nfiles fs -> 1 <= nch -> SPP.Model.Stream.total fs = N * nch -> 0 <= start -> 1 <= nsamps -> start + nsamps <= N -> 1 <= g1 -> 1 <= g2 ->
+  0 <= c < nch -> nsamps < 2 ^ 31 ->
+  exists s1 s2, stats_pipe fs nch g1 start nsamps full c = Some s1 /\ stats_pipe fs nch g2 start nsamps full c = Some s2 /\ st_agree full s1 s2.
+Proof. exact gulp_irrelevant_stats. Qed.
+Print Assumptions C06_gulp_irrelevant_stats.
+
+Theorem C06_gulp_irrelevant_packed : forall fs nch nbits big N g1 g2 start nsamps md delays ichan junk1 junk2 out1 out2,
+  In nbits [1; 2; 4] -> (nch * nbits) mod 8 = 0 -> 1 <= nch ->
+  1 <= nfiles fs -> total fs = N * samp_bytes nch nbits -> Forall is_byte (flat fs) ->
+  0 <= start -> 1 <= nsamps -> start + nsamps <= N -> 1 <= g1 -> 1 <= g2 ->
+  0 <= md < nsamps -> (forall c, 0 <= c < nch -> 0 <= delays c <= md) -> 0 <= ichan < nch ->
+  (exists a b, collapse_pipe_packed fs nch nbits big g1 start nsamps junk1 = Some a /\ collapse_pipe_packed fs nch nbits big g2 start nsamps junk2 = Some b /\
+     forall t, 0 <= t < nsamps -> a t = b t) /\
+  (exists a n b m, bandpass_pipe_packed fs nch nbits big g1 start nsamps junk1 = Some (a, n) /\ bandpass_pipe_packed fs nch nbits big g2 start nsamps junk2 = Some (b, m) /\
+     n = m /\ forall c, 0 <= c < nch -> a c = b c) /\
+  (exists a b, read_chan_pipe_packed fs nch nbits big g1 start nsamps ichan junk1 out1 = Some a /\ read_chan_pipe_packed fs nch nbits big g2 start nsamps ichan junk2 out2 = Some b /\
+     forall t, 0 <= t < nsamps -> a t = b t) /\
+  (exists a b, dedisperse_pipe_packed fs nch nbits big g1 start nsamps md delays junk1 = Some a /\ dedisperse_pipe_packed fs nch nbits big g2 start nsamps md delays junk2 = Some b /\
+     forall t, 0 <= t < nsamps - md -> a t = b t).
+Proof. exact gulp_irrelevant_packed. Qed.
+Print Assumptions C06_gulp_irrelevant_packed.
+
+Theorem C06_gulp_irrelevant_items : forall fs nch w dec N g1 g2 start nsamps md delays ichan out1 out2,
+  1 <= w -> 1 <= nch -> 1 <= nfiles fs -> total fs = N * (nch * w) ->
+  0 <= start -> 1 <= nsamps -> start + nsamps <= N -> 1 <= g1 -> 1 <= g2 ->
+  0 <= md < nsamps -> (forall c, 0 <= c < nch -> 0 <= delays c <= md) -> 0 <= ichan < nch ->
+  (exists a b, collapse_pipe_items fs nch w dec g1 start nsamps = Some a /\ collapse_pipe_items fs nch w dec g2 start nsamps = Some b /\
+     forall t, 0 <= t < nsamps -> a t = b t) /\
+  (exists a n b m, bandpass_pipe_items fs nch w dec g1 start nsamps = Some (a, n) /\ bandpass_pipe_items fs nch w dec g2 start nsamps = Some (b, m) /\
+     n = m /\ forall c, 0 <= c < nch -> a c = b c) /\
+  (exists a b, read_chan_pipe_items fs nch w dec g1 start nsamps ichan out1 = Some a /\ read_chan_pipe_items fs nch w dec g2 start nsamps ichan out2 = Some b /\
+     forall t, 0 <= t < nsamps -> a t = b t) /\
+  (exists a b, dedisperse_pipe_items fs nch w dec g1 start nsamps md delays = Some a /\ dedisperse_pipe_items fs nch w dec g2 start nsamps md delays = Some b /\
+     forall t, 0 <= t < nsamps - md -> a t = b t).
+Proof. exact gulp_irrelevant_items. Qed.
+Print Assumptions C06_gulp_irrelevant_items.
+
+(** non-vacuity, packed: 2-bit, 4 channels (one byte per sample), 2 files, 5 samples [27;228;0;255;57], sub-range [1,5), gulp 3 (two blocks).
+    byte 228 = 0b11100100 holds the little-endian fields 0,1,2,3 *)
+Example C06_example_packed :
+  let fs := [mkfile [7; 7] [27; 228]; mkfile [9] [0; 255; 57]] in
+  let junk := fun _ : Z => -9 in
+  (In 2 [1; 2; 4] /\ (4 * 2) mod 8 = 0 /\ total fs = 5 * samp_bytes 4 2 /\ Forall is_byte (flat fs)) /\
+  option_map (to_list 4) (read_chan_pipe_packed fs 4 2 false 3 1 4 1 junk (fun _ => -7)) = Some [1; 0; 3; 2] /\
+  option_map (fun p => (to_list 4 (fst p), snd p)) (bandpass_pipe_packed fs 4 2 false 3 1 4 junk) = Some ([0 + 0 + 3 + 1; 1 + 0 + 3 + 2; 2 + 0 + 3 + 3; 3 + 0 + 3 + 0], 4) /\
+  option_map (to_list 4) (collapse_pipe_packed fs 4 2 false 3 1 4 junk) = Some [6; 0; 12; 6].
+Proof. vm_compute. repeat split; try reflexivity; try discriminate; repeat constructor; discriminate. Qed.
+
+(** non-vacuity, item-wide: w = 4 bytes per sample with a toy decoding (first byte + 256 * second byte), 2 channels, 2 files whose
+    boundary falls inside the stream, 4 samples, sub-range [1,4), gulp 2 (one full block + a partial one), delays (0,1) *)
+Definition toy_dec (l : list Z) : Z := nth 0 l 0 + 256 * nth 1 l 0.
+Example C06_example_items :
+  let fs := [mkfile [1] [1;0;9;9; 2;0;9;9; 3;0;9;9; 4;0;9;9]; mkfile [2; 2] [5;0;9;9; 6;0;9;9; 7;1;9;9; 8;0;9;9]] in
+  total fs = 4 * (2 * 4) /\
+  option_map (to_list 3) (collapse_pipe_items fs 2 4 toy_dec 2 1 3) = Some [3 + 4; 5 + 6; 263 + 8] /\
+  option_map (to_list 3) (read_chan_pipe_items fs 2 4 toy_dec 2 1 3 0 (fun _ => -7)) = Some [3; 5; 263] /\
+  option_map (fun p => (to_list 2 (fst p), snd p)) (bandpass_pipe_items fs 2 4 toy_dec 2 1 3) = Some ([3 + 5 + 263; 4 + 6 + 8], 3) /\
+  option_map (to_list 2) (dedisperse_pipe_items fs 2 4 toy_dec 1 1 3 1 (of_list [0; 1])) = Some [3 + 6; 5 + 8].
 Proof. vm_compute. repeat split; reflexivity. Qed.
